@@ -39,9 +39,10 @@ UNITS = [
     U("U-isconst-more", ["util::is_jsx_attr_value_constant", "util::is_constant"], [h for h in ISCONST if h not in ISCONST_Q], ["C13"], completeness="bounded", tier="thorough",
       domain="remaining leaf x wrapper combinations, nesting depth <= 2", mem_gb=6, timeout=1200, assumes=[A_DROP, A_CLONE]),
     U("U-tag", ["VueJsxTransformVisitor::transform_tag", "VueJsxTransformVisitor::is_component", "VueJsxTransformVisitor::import_from_vue"],
-      TAGS + ["tag_member"], ["C01", "C02", "C03", "C08"], domain="9 tag names x {no pattern, ^x-} x symbolic {unresolved, Fragment imported before, 4 options}", mem_gb=8, timeout=900, assumes=[A_DROP, A_CLONE, A_FMT]),
+      TAGS + ["tag_member", "tag_member_fragment", "tag_member_keepalive", "tag_member_fragment_alias"], ["C01", "C02", "C03", "C08"], domain="9 tag names x {no pattern, ^x-} x symbolic {unresolved, Fragment imported before, 4 options}", mem_gb=8, timeout=900, assumes=[A_DROP, A_CLONE, A_FMT]),
     U("U-tag-fragment", ["VueJsxTransformVisitor::is_component"], ["tag_fragment_not_component"], ["C02", "C03", "C10"], domain="`Fragment` x symbolic history", mem_gb=8, assumes=[A_DROP, A_FMT]),
     U("U-tag-frame", ["VueJsxTransformVisitor::is_component"], ["tagframe_alias_text", "tagframe_foo", "tagframe_div"], ["C10"], domain="2-safety: two visitor states that differ in the Fragment import", mem_gb=8, assumes=[A_DROP, A_FMT]),
+    U("U-tag-two-bindings", ["VueJsxTransformVisitor::transform_tag"], ["tag_same_name_two_bindings"], ["C10"], completeness="bounded", tier="thorough", domain="the same tag name with two bindings, either order", mem_gb=24, timeout=3600, assumes=[A_DROP, A_FMT]),
     U("U-tag-nojsx", ["VueJsxTransformVisitor::transform_tag"], ["tag_namespaced_no_jsx_leak"], ["C07"], domain="namespaced tag", mem_gb=8, assumes=[A_DROP, A_FMT]),
     U("U-attrs-plain-whole", ["VueJsxTransformVisitor::transform_attrs", "util::is_on", "util::dedupe_props", "directive::is_directive"], PLAIN,
       ["C13", "C01"], completeness="bounded", domain="one attribute: 11 names x {dynamic, value-less, string} x symbolic {host kind, constness, 4 options}; attribute list length 1",
@@ -51,7 +52,7 @@ UNITS = [
 ]
 
 DIRSPELL = ["dirspell_kebab", "dirspell_camel", "dirspell_camel_inner_upper", "dirspell_one_modifier", "dirspell_two_modifiers", "dirspell_ns_arg",
-            "dirspell_ns_arg_modifier", "dirspell_camel_ns", "dirspell_show", "dirspell_kebab_inner", "dirspell_name_starts_with_v", "dirspell_ns_name_starts_with_v", "dirspell_suffix_with_array_form"]
+            "dirspell_ns_arg_modifier", "dirspell_camel_ns", "dirspell_show", "dirspell_kebab_inner", "dirspell_name_starts_with_v", "dirspell_ns_name_starts_with_v", "dirspell_suffix_with_array_form", "dirspell_digit_modifier", "dirspell_empty_name", "dirspell_multibyte_name"]
 DIRVAL = ["dirval_v", "dirval_v_arg", "dirval_v_mods", "dirval_v_arg_mods", "dirval_empty_array", "dirval_hole", "dirval_absent", "dirval_string", "dirval_nonident_modifier"]
 DIRVAL_SLOW = ["dirval_v_mods", "dirval_v_arg_mods", "dirval_nonident_modifier"]
 VMODEL_SLOW = ["vmodel_array_mods", "vmodel_array_arg_mods"]
@@ -88,11 +89,15 @@ UNITS += [
     U("U-emptytext", ["VueJsxTransformVisitor::transform_jsx_text"], ["jsx_text_empty_iff_dropped"], ["C02"], domain="symbolic emptiness of the cleaned text: complete", mem_gb=8, assumes=[A_DROP, A_FMT, A_TT]),
     U("U-isdc", ["VueJsxTransformVisitor::is_define_component_call", "VueJsxTransformVisitor::visit_mut_import_decl"], ["define_component_identification"] + IMPORTS, ["C20"],
       domain="5 callee shapes x recorded/not; 8 import declaration shapes", mem_gb=8, assumes=[A_DROP, A_CLONE]),
-    U("U-inject", ["inject_define_component_option"], INJECT, ["C20"], completeness="bounded", domain="8 option-argument shapes", mem_gb=8, assumes=[A_DROP, A_CLONE]),
+    U("U-inject", ["inject_define_component_option"], ["inject_no_options", "inject_spread_args"], ["C20"], completeness="bounded", domain="no options argument; spread argument list", mem_gb=8, timeout=900, assumes=[A_DROP, A_CLONE]),
+    U("U-inject-literal", ["inject_define_component_option"], [h for h in INJECT if h not in ("inject_no_options", "inject_spread_args")], ["C20"], completeness="bounded", tier="thorough",
+      domain="6 options-literal shapes (other key, same key as identifier / string / shorthand, non-literal options, literal containing a spread); Vec::insert at a computed position makes the SAT instance large", mem_gb=24, timeout=5400, assumes=[A_DROP, A_CLONE]),
     U("U-rttable", ["resolve_type::infer_runtime_type"], ["rt_keywords", "rt_literals"] + RTB[:8], ["C17"], completeness="bounded",
       domain="all keyword kinds of the table, literal kinds, 8 built-in names", mem_gb=8, timeout=1200, assumes=[A_DROP, A_CLONE]),
     U("U-rttable-more", ["resolve_type::infer_runtime_type"], ["rt_structural"] + RTB[8:], ["C17"], completeness="bounded", tier="thorough",
       domain="12 more built-in names, fn/array/tuple/paren/union/NonNullable one level", mem_gb=10, timeout=2400, assumes=[A_DROP, A_CLONE]),
+    U("U-rt-emission", ["resolve_type::extract_props_type", "resolve_type::build_props_type", "resolve_type::resolve_indexed_access"], ["props_type_emission_nullable_union", "rt_indexed_access"], ["C17"], completeness="bounded", tier="thorough",
+      domain="`string | null` emission through extract_props_type; array / tuple indexed access", mem_gb=20, timeout=3600, assumes=[A_DROP, A_CLONE, A_FMT]),
     U("U-rt-bigint", ["resolve_type::infer_runtime_type"], ["rt_bigint_literal"], ["C17"], domain="bigint literal type", mem_gb=8, assumes=[A_DROP]),
 ]
 
@@ -127,11 +132,14 @@ UNITS += [
 
 CHILDREN = ["children_none", "children_text", "children_expr", "children_empty_expr", "children_text_expr", "children_expr_empty", "children_text_bound_ident",
             "children_text_unbound_ident", "children_spread_text", "children_bound_spread_text"]
+CHILDREN_Q = ["children_none", "children_text", "children_empty_expr", "children_text_bound_ident"]
 UNITS += [
-    U("U-children", ["VueJsxTransformVisitor::transform_children", "VueJsxTransformVisitor::wrap_children", "VueJsxTransformVisitor::transform_jsx_text"], CHILDREN, ["C02", "C13"], completeness="bounded",
-      domain="child lists of length <= 2 over {text, expression, empty expression, bound / unbound identifier, spread} x symbolic host kind and options", mem_gb=8, timeout=1200,
+    U("U-children", ["VueJsxTransformVisitor::transform_children", "VueJsxTransformVisitor::wrap_children", "VueJsxTransformVisitor::transform_jsx_text"], CHILDREN_Q, ["C02", "C13"], completeness="bounded",
+      domain="child lists {none, text, empty expression, text + bound identifier} x symbolic host kind and options", mem_gb=10, timeout=1500,
       unwindset={"memcmp.0": 16}, assumes=[A_DROP, A_CLONE, A_TT, A_FMT]),
-    U("U-slotflag-stack", ["VueJsxTransformVisitor::transform_children"], ["slot_flag_stack_fill"], ["C13"], completeness="bounded", domain="two enclosing elements, bound identifier child", mem_gb=8, timeout=1200,
+    U("U-children-more", ["VueJsxTransformVisitor::transform_children", "VueJsxTransformVisitor::wrap_children"], [h for h in CHILDREN if h not in CHILDREN_Q], ["C02", "C13"], completeness="bounded", tier="thorough",
+      domain="remaining child lists of length <= 2 (expression, text + expression, expression + empty, unbound identifier, spread)", mem_gb=12, timeout=2400, unwindset={"memcmp.0": 16}, assumes=[A_DROP, A_CLONE, A_TT, A_FMT]),
+    U("U-slotflag-stack", ["VueJsxTransformVisitor::transform_children"], ["slot_flag_stack_fill"], ["C13"], completeness="bounded", tier="thorough", domain="two enclosing elements, bound identifier child", mem_gb=12, timeout=2400,
       unwindset={"memcmp.0": 16}, assumes=[A_DROP, A_CLONE, A_TT, A_FMT]),
 ]
 
